@@ -458,7 +458,16 @@ class SpawnProcessRunner(ProcessRunner):
             # and results to the subprocess if we are going to run the
             # task (and not just load its result from cache) and allow
             # the task to filter the context to only what it needs.
-            filtered_context = task.filter_context(self.context)
+            try:
+                filtered_context = task.filter_context(self.context)
+            except Exception as ex:
+                # The context is filtered here, in the calling
+                # process: a failing filter_context() is a failure of
+                # the task (as under the other runners), not of the
+                # whole run.
+                failed_future = Future()
+                failed_future.set_exception(ex)
+                return failed_future
             results_map = {
                 dependency_task: self.results_map[dependency_task]
                 for dependency_task in get_direct_dependencies(task)
